@@ -100,8 +100,9 @@ partial def evalExpr (s : AState) : AExpr → Option (Except Err (AState × Val)
       | none => none
       | some (.error e) => some (.error e)
       | some (.ok (s, vs)) =>
-        let (h, v) := construct s.heap vs
-        some (.ok ({ s with heap := h }, v))
+        match constructLit s.heap vs with
+        | .ok (h, v) => some (.ok ({ s with heap := h }, v))
+        | .error e => some (.error e)
   | .filled n e =>
       match evalExpr s e with
       | none => none
@@ -284,7 +285,46 @@ def initState (n1 n2 : Nat) : AState :=
   let (h2, v2) := mk n2 h1
   { heap := h2, vars1 := v1, vars2 := v2 }
 
+/-- element `i` of the big literals the harness writes: int `i % 7`, bool `i % 2 == 0`, void `nil`, string a/b/"" -/
+def bigElem (ty : String) (i : Nat) : Val :=
+  if ty == "int" then .int (i % 7)
+  else if ty == "bool" then .bool (i % 2 == 0)
+  else if ty == "void" then .nil
+  else .str (if i % 3 == 0 then "a" else if i % 3 == 1 then "b" else "")
+
+/-- `arrbig <ty> <n> <i1> <i2> …`: one literal of `n` elements (compiled as ConstructArray + pushes beyond 65535);
+    the program prints len, the listed elements, pushes one more, prints len, pops it, and reads past the end -/
+def handleArrBig : List String → String
+  | ty :: n :: idxs =>
+    match n.toNat?, parseAll idxs with
+    | some n, some idxs =>
+      match constructLit [] ((List.range n).map (bigElem ty)) with
+      | .error e => "ERR:" ++ errName e
+      | .ok (h, a) =>
+        let lenS := match lenOp h a with | .ok k => toString k | .error e => "ERR:" ++ errName e
+        let elems := idxs.map fun i => match getIndex h a i with
+          | .ok x => showScalar x
+          | .error e => "ERR:" ++ errName e
+        match pushOp h a (bigElem ty n) with
+        | .error e => "ERR:" ++ errName e
+        | .ok h1 =>
+          let len2 := match lenOp h1 a with | .ok k => toString k | .error e => "ERR:" ++ errName e
+          match popOp h1 a with
+          | .error e => "ERR:" ++ errName e
+          | .ok (h2, x) =>
+            let last := match getIndex h2 a ((n : Int) + 5) with | .ok x => showScalar x | .error e => "ERR:" ++ errName e
+            lenS ++ ";" ++ ",".intercalate elems ++ ";" ++ len2 ++ ";" ++ showScalar x ++ ";" ++ last
+    | _, _ => "bad-op"
+  | _ => "bad-op"
+where
+  parseAll : List String → Option (List Int)
+    | [] => some []
+    | s :: r => match s.toInt?, parseAll r with
+      | some i, some is => some (i :: is)
+      | _, _ => none
+
 def handleArr : List String → String
+  | "big" :: rest => handleArrBig rest
   | n1 :: n2 :: toks =>
     match n1.toNat?, n2.toNat? with
     | some n1, some n2 => runStmts (initState n1 n2) "" (splitStmts toks)
